@@ -102,6 +102,8 @@ class C05(OutstationProp):
                 # only a request that passed header validation and object parsing is "processed" and remembered
                 accepted = bc == "none" and (any_master or frm == MASTER) and len(b) >= 2 and wellformed
                 is_confirm = len(b) >= 2 and b[1] == 0
+                if bc == "none" and (any_master or frm == MASTER) and not wellformed and not is_confirm:
+                    prev = None       # another fragment came in between: what follows is no retransmission of the last request
                 if accepted and not is_confirm:
                     if prev is not None and prev[0] == b and prev[1] == frm:
                         # a retransmission of the request processed last
